@@ -10,7 +10,13 @@ corr   : REAL computations on the real executors {single-threaded, threads, proc
            * trace inclusion: the observed sequence of callback events and store accesses is accepted by `acceptsObs`
              (theorem C07_trace_inclusion: then it is a run of the transition system, to which C07_safe_reachable applies);
            * perturbed traces (a read moved before its producer's end, an operation end before a task end) are rejected.
-oracle : independent of Lean, on the same kind of runs: no chunk `get` of an array misses, per produced array all chunk
+         Scripted schedules: the REAL async_map_dag (+ async_map_unordered, aiostream) on a virtual-time loop with scripted
+         futures (harness/vloop.py): ops with >= 10 tasks, stragglers that get a backup, one twin failing while the other is
+         still running (both roles), both failing, sequential / generation mode, batching — the observation sequence
+         (events, first successful write of each input, consumer submissions) must be accepted by `acceptsObs`.
+oracle : on the scripted schedules: every input yields exactly once, an op is closed and a consumer task submitted only after
+         every producer input has completed a successful execution, an error surfaces only if no copy succeeds.
+         Independent of Lean, on the real-executor runs: no chunk `get` of an array misses, per produced array all chunk
          `set`s complete before the first chunk `get` starts, an operation starts only after the operations producing its
          inputs have ended, array creation happens inside create-arrays and before any chunk access.
 """
@@ -29,7 +35,7 @@ ASSUMPTIONS = [
     "hypotheses Topo / Gens on nx.topological_sort / nx.topological_generations — validated on every real DAG by checkGens (sound by C07_checks_sound)",
     "hypothesis CreateFirst (edges create-arrays -> arrays -> every pipeline node) — validated on every real DAG by checkCreateFirst",
     "a task touches the store only between its submission and the delivery of its result (aiostream drains the stream; the pool runs what was submitted) — checked by trace inclusion on every observed run",
-    "use_backups is off for local stores (default); a cancelled backup task that keeps running is not modelled",
+    "use_backups: exercised on scripted schedules of the real async_map_dag/async_map_unordered on a virtual-time loop (backup launched, one twin failing while the other runs); a backup that loses the race keeps running after its twin succeeded and rewrites identical bytes (C06) — that tail is not modelled",
 ]
 TRUSTED = ["modelled not verified: aiostream's `async with stream()` / `stream.merge` and concurrent.futures pools (observed through the trace only)",
            "zarr's store interface reports every chunk access to the wrapping store"]
@@ -91,6 +97,113 @@ def cases_of(ctx):
         nproc = ctx.budget(2, 10)
         ctx._c07_runs = run_cases(ctx, gen_cases(ctx.rng, n, nproc), 0.02)
     return ctx._c07_runs
+
+
+# ----------------------------------------------------------------------------------------------
+# scripted schedules with backups (use_backups=True): the real async_map_dag on a virtual-time loop
+# ----------------------------------------------------------------------------------------------
+
+def _sc(ops, script, parallel=False, bs=None, ub=True):
+    return {"ops": ops, "script": script, "parallel": parallel, "use_backups": ub, "batch_size": bs}
+
+
+def scripted_witnesses():
+    """Fixed corpus (every tier): stragglers that get a backup (>= 10 tasks, duration > 3x median, checked on the 2 s
+    wake-ups, so the backup is submitted at t=5), one twin failing while the other is still running, in both roles,
+    sequential and generation mode, with and without batching, plus controls."""
+    chain = [{"n": 12, "preds": []}, {"n": 3, "preds": [0]}]
+    two = [{"n": 12, "preds": []}, {"n": 11, "preds": []}, {"n": 3, "preds": [0, 1]}]
+    dia = [{"n": 10, "preds": []}, {"n": 12, "preds": [0]}, {"n": 2, "preds": [0]}, {"n": 4, "preds": [1, 2]}]
+    w = []
+    for par in (False, True):
+        w.append(_sc(chain, {"0:0:0": [1, 100], "0:0:1": [0, 1]}, par))          # backup fails, slow original succeeds later
+        w.append(_sc(chain, {"0:0:0": [0, 8], "0:0:1": [1, 50]}, par))           # original fails, slow backup succeeds later
+        w.append(_sc(chain, {"0:0:0": [0, 8], "0:0:1": [0, 5]}, par))            # both fail: the error must surface
+        w.append(_sc(chain, {"0:7:0": [1, 60], "0:7:1": [1, 2]}, par))           # backup wins, original abandoned
+        w.append(_sc(two, {"0:3:0": [1, 90], "0:3:1": [0, 2], "1:5:0": [0, 9], "1:5:1": [1, 40]}, par, bs=12))
+        w.append(_sc(dia, {"1:4:0": [1, 70], "1:4:1": [0, 3], "1:9:0": [0, 12], "1:9:1": [1, 30]}, par))
+        w.append(_sc(chain, {"0:0:0": [1, 100]}, par, ub=False))                  # control: no backups
+    return w
+
+
+def gen_scripted(rng):
+    shape = rng.choice(["chain", "two", "dia"])
+    n = rng.randint(10, 16)
+    if shape == "chain":
+        ops = [{"n": n, "preds": []}, {"n": rng.randint(1, 4), "preds": [0]}]
+        big = [0]
+    elif shape == "two":
+        ops = [{"n": n, "preds": []}, {"n": rng.randint(10, 14), "preds": []}, {"n": rng.randint(1, 4), "preds": [0, 1]}]
+        big = [0, 1]
+    else:
+        ops = [{"n": rng.randint(2, 11), "preds": []}, {"n": n, "preds": [0]}, {"n": rng.randint(1, 3), "preds": [0]},
+               {"n": rng.randint(1, 4), "preds": [1, 2]}]
+        big = [1]
+    script = {}
+    for o in big:
+        for i in rng.sample(range(ops[o]["n"]), rng.choice([1, 1, 2])):
+            r = rng.random()
+            if r < 0.35:      # backup fails while the slow original keeps running
+                script["%d:%d:0" % (o, i)] = [1, rng.randint(20, 120)]
+                script["%d:%d:1" % (o, i)] = [0, rng.randint(1, 10)]
+            elif r < 0.7:     # original fails after the backup was launched; slow backup succeeds
+                script["%d:%d:0" % (o, i)] = [0, rng.randint(6, 15)]
+                script["%d:%d:1" % (o, i)] = [1, rng.randint(12, 80)]
+            elif r < 0.85:    # both succeed
+                script["%d:%d:0" % (o, i)] = [1, rng.randint(6, 90)]
+                script["%d:%d:1" % (o, i)] = [1, rng.randint(1, 60)]
+            else:             # both fail
+                script["%d:%d:0" % (o, i)] = [0, rng.randint(6, 30)]
+                script["%d:%d:1" % (o, i)] = [0, rng.randint(1, 30)]
+    bs = rng.choice([None, None, n, n + 3, 10])
+    return _sc(ops, script, parallel=rng.random() < 0.5, bs=bs, ub=rng.random() < 0.9)
+
+
+def scripted_runs(ctx):
+    if getattr(ctx, "_c07_scripted", None) is None:
+        cases = scripted_witnesses() + [gen_scripted(ctx.rng) for _ in range(ctx.budget(150, 1500))]
+        ctx._c07_scripted = [(c, st.run_scripted_dag(c)) for c in cases]
+    return ctx._c07_scripted
+
+
+def scripted_kind(c, res):
+    twins = sum(1 for k in c["script"] if k.endswith(":1"))
+    return "scripted:%s:%s:%s" % ("par" if c["parallel"] else "seq", "backups" if c["use_backups"] and twins else "plain", res["outcome"])
+
+
+def scripted_case(c):
+    return {"scripted": c, "replay": "cd /verif/harness && /venv/bin/python -c \"import sys, json; sys.path.insert(0, '<tree under test>'); "
+                                     "import schedtrace as st; c = json.loads(sys.argv[1]); r = st.run_scripted_dag(c); "
+                                     "print(r['outcome'], st.scripted_violations(c, r)); print(*r['seq'], sep=chr(10))\" '<scripted as JSON>'"}
+
+
+def corr_scripted(ctx):
+    reqs, meta = [], []
+    for c, res in scripted_runs(ctx):
+        twins = any(k.endswith(":1") for k in c["script"])
+        ctx.count({"corr-scripted": c}, nontrivial=twins, kind="corr:" + scripted_kind(c, res))
+        if res["outcome"] != "done":
+            continue
+        f = res["facts"]
+        reqs.append("accepts|%s|%s|%s" % (st.encode_dag(f), st.encode_order(f, bool(c["parallel"])), " ".join(st.scripted_tokens(res))))
+        meta.append(c)
+        ctx.traces += 1
+    ans = ctx.lean.drive(DRIVER, reqs)
+    for rq, a, c in zip(reqs, ans, meta):
+        if a != "ok":
+            ctx.disagree("scripted run of async_map_dag with backups is a run of the model (acceptsObs: every input yields once, "
+                         "first successful write before the op is closed, reads after)", {"case": scripted_case(c), "request": rq[:3000]}, a, "ok")
+
+
+def oracle_scripted(ctx):
+    for c, res in scripted_runs(ctx):
+        twins = any(k.endswith(":1") for k in c["script"])
+        ctx.count({"oracle-scripted": c}, nontrivial=twins, kind="oracle:" + scripted_kind(c, res))
+        bad = st.scripted_violations(c, res)
+        if bad:
+            ctx.fail("scripted schedule: " + bad[-1], dict(scripted_case(c), all=bad,
+                                                         submissions=[s_ for s_ in res["subs"] if ("%d:%d:0" % (s_["op"], s_["input"])) in c["script"]],
+                                                         outcome=res["outcome"]))
 
 
 def nontrivial(facts):
@@ -177,6 +290,7 @@ def corr(ctx):
     for rq, e, a, (rel, r) in zip(reqs, expect, ans, meta):
         if e != a:
             ctx.disagree(rel, {"case": r["case"], "request": rq[:3000]}, a, e)
+    corr_scripted(ctx)
 
 
 # ----------------------------------------------------------------------------------------------
@@ -263,6 +377,7 @@ def dynamic_failure(r):
 
 
 def oracle(ctx):
+    oracle_scripted(ctx)
     for r in cases_of(ctx):
         check_run(ctx, r)
 
@@ -284,6 +399,13 @@ def search(ctx):
 
 def replay(ctx, body):
     case = body.get("case", {})
+    if "scripted" in case:
+        c = case["scripted"]
+        res = st.run_scripted_dag(c)
+        bad = st.scripted_violations(c, res)
+        print("REPLAY scripted:", res["outcome"], bad or "no failure on this tree")
+        for ob in res["seq"]:
+            print("   ", ob)
     if "program" in case:
         r = st.run_case(case["program"], case["config"], case.get("store_seed", 0), case.get("max_latency", 0.02))
         r["case"] = case
